@@ -38,14 +38,17 @@ def build_tools(flavour):
     out = {}
     with common.Lock("c20-tools-" + flavour):
         for t, name in TOOLS.items():
-            exe = os.path.join(inc, name)
+            # the name carries the recipe, so that a binary made with another include order is never reused
+            recipe = hashlib.sha256(("v2|-I-first|" + flavour + "|" + " ".join(common.cflags("asan"))).encode()).hexdigest()[:10]
+            exe = os.path.join(inc, "%s-%s" % (name, recipe))
             out[t] = exe
             if os.path.exists(exe):
                 continue
             srcs = [os.path.join(common.REPO, "tools", name + "_tool.c")]
             if flavour == "att":
                 srcs.append(os.path.join(common.REPO, "tools", "attgetopt.c"))
-            cmd = ["gcc"] + common.cflags("asan") + ["-I" + inc] + srcs + [os.path.join(d, "libwbxml.a"), "-lexpat", "-o", exe + ".tmp"]
+            # our tools/config.h must win over the one common._gen_config puts under <build>/inc (always the glibc flavour)
+            cmd = ["gcc", "-I" + inc] + common.cflags("asan") + srcs + [os.path.join(d, "libwbxml.a"), "-lexpat", "-o", exe + ".tmp"]
             rc, o, e = common.sh(cmd)
             if rc != 0:
                 raise common.BuildError("tool build failed: %s\n%s" % (name, e[-3000:]))
